@@ -99,6 +99,26 @@ pub fn generate(seed: u64, tier: Tier) -> Case {
                         flags: Flags::default(),
                         singleton: None,
                     };
+                } else {
+                    // What the second declaration looks like: a body of its own, the very
+                    // same declaration again, or a bare `type X;` / `type X {}` (which, placed
+                    // at random, comes before or after the real one).
+                    match rng.below(4) {
+                        0 => {}
+                        1 => {
+                            it = p.items[t].clone();
+                            if let ItemKind::Type { impl_funcs, .. } = &mut it.kind {
+                                impl_funcs.clear();
+                            }
+                        }
+                        k => {
+                            it.vis = rng.chance(1, 2);
+                            if let ItemKind::Type { fields, semicolon_form, .. } = &mut it.kind {
+                                fields.clear();
+                                *semicolon_form = k == 2;
+                            }
+                        }
+                    }
                 }
                 injected = Some((it, "duplicate_definition"));
             }
